@@ -3,6 +3,7 @@ package vrt
 import (
 	"reflect"
 	"sort"
+	"strings"
 	"time"
 	"unsafe"
 )
@@ -174,6 +175,12 @@ func (hs *hasher) value(v reflect.Value, depth int) uint64 {
 		}
 		return Mix(35, hs.value(v.Elem(), depth+1))
 	case reflect.Struct:
+		if raceEnabled && strings.HasSuffix(t.Name(), "Opts") || raceEnabled && strings.HasPrefix(t.Name(), "Opts[") || raceEnabled && strings.HasPrefix(t.Name(), "SimpleOpts[") {
+			// race build: option values are shared with the user (e.g. the caller's
+			// Inputs map, which it may reuse); they are not state of the thread and
+			// reading them from here would be reported against the user's writes
+			return 45
+		}
 		h := uint64(36)
 		for i := 0; i < v.NumField(); i++ {
 			h = Mix(h, hs.value(v.Field(i), depth+1))
